@@ -83,7 +83,7 @@ def gen_cases(rng, tier, names=None, per=None):
 KNOWN_C01 = None
 
 
-def run_both(cases, prefix='i', spec=False):
+def run_both(cases, prefix='i', spec=False, long_spec=()):
     """spec=True also evaluates the documented formula in the driver (slow: only C01 needs it)"""
     lines = []
     for i, (name, ns, fs, ins, regime) in enumerate(cases):
@@ -91,7 +91,8 @@ def run_both(cases, prefix='i', spec=False):
     go = vlib.run_go(lines)
     # the documented formula is evaluated by un-memoised recursion over positions: long series go to the model only (Go = model
     # bit for bit there; model = formula is what the theorems say)
-    model = vlib.run_model([l if (spec and not str(c[4]).endswith('+long')) else l.replace(' IND ', ' INDM ', 1) for l, c in zip(lines, cases)])
+    # (long_spec: indicators whose formula is cheap enough to be evaluated on long series as well)
+    model = vlib.run_model([l if (spec and (not str(c[4]).endswith('+long') or c[0] in long_spec)) else l.replace(' IND ', ' INDM ', 1) for l, c in zip(lines, cases)])
     return lines, go, model
 
 
@@ -967,6 +968,12 @@ def c15_eval(res, cases, lines, go, findings, stats, model=None):
                 r1 = leq(lo, v, rs) if lo is not None else True
                 r2 = leq(v, hi, rs) if hi is not None else True
                 if not (r1 and r2) and problem is None:
+                    sv = spec_value(m, k, j) if (m and nan_ok and name not in C01_DEVIATING) else None
+                    if sv is not None and undefined(sv):
+                        # the documented formula is undefined here (zero defining denominator, e.g. no money flow at all in the
+                        # window): whatever the running sums left over in their last bits is exempt
+                        stats['exempt'] += 1
+                        continue
                     problem = {'output': k, 'index': j, 'value': v, 'range': [lo, hi]}
         if name in BANDS:
             u, mdl, l = BANDS[name]
@@ -1014,7 +1021,7 @@ def check_c15(res, tier, replay):
     per = 24 if tier == 'quick' else 500
     cases = replay_cases(replay) if replay else [w for w, _ in witness_cases('C15')] + c15_cases(rng, tier, names, per)
     stats = {'checked': 0, 'exempt': 0, 'bad': 0, 'not_ok': 0, 'nonfinite_where_defined': 0, 'cells': set(), 'known': collections.defaultdict(int)}
-    lines, go, model = run_both(cases, spec=True)
+    lines, go, model = run_both(cases, spec=True, long_spec=set(names) - {'StochasticRsi', 'StochasticRsiG'})
     mism = correspondence(res, cases, lines, go, model, 'C15')
     c15_eval(res, cases, lines, go, findings, stats, model)
     total = len(cases)
